@@ -6,7 +6,13 @@ use std::collections::HashMap;
 use std::io::{Error, ErrorKind};
 use std::net::{IpAddr, SocketAddr};
 use std::sync::Arc;
+#[cfg(not(anytls_verif))]
 use std::time::{Duration, Instant};
+// H4: under the guard the cache TTL reads the (virtual) tokio clock
+#[cfg(anytls_verif)]
+use std::time::Duration;
+#[cfg(anytls_verif)]
+use tokio::time::Instant;
 use tokio::net::lookup_host;
 use tokio::sync::RwLock;
 use tracing::{debug, info, trace};
